@@ -1,8 +1,8 @@
 (* C03  Measurements do not depend on the coordinate frame. *)
 From Coq Require Import ZArith Reals List Lra Lia.
 From Flocq Require Import Core.Raux.
-From EG Require Import Num.Num Num.RNum Lib.Vec Model.Types Model.TolMap Model.Curve Model.Frames Model.Rigid.
-From EG Require Import Proofs.VecR Proofs.Frames Proofs.Rigid.
+From EG Require Import Num.Num Num.RNum Lib.Vec Model.Types Model.TolMap Model.Curve Model.Closest Model.Frames Model.Rigid.
+From EG Require Import Proofs.VecR Proofs.Curve Proofs.Frames Proofs.Rigid Proofs.RigidMore.
 Import ListNotations.
 Local Open Scope R_scope.
 
@@ -73,3 +73,24 @@ Proof.
   - cbv [rigid2_ok r2c r2s]. lra.
   - cbv [rigid3_ok orthonormal3 r3x r3y r3z]. vec_unfold. change (@num RNum) with R. repeat split; lra.
 Qed.
+
+(* the rotation part of a rigid motion is linear (2D and 3D) *)
+Theorem C03_linear : (forall T : @rigid2 RNum, IsoLin (@VO2 RNum) (apply2 T) (rot2 T)) /\
+                     (forall T : @rigid3 RNum, IsoLin (@VO3 RNum) (apply3 T) (rot3 T)).
+Proof. split; [exact iso_lin2 | exact iso_lin3]. Qed.
+Print Assumptions C03_linear.
+
+(* stations commute with the motion: the station of the moved curve at l is the moved station - moved point, rotated
+   direction, same edge index and fraction - and there is one exactly when there is one on the source *)
+Theorem C03_station_equivariant : forall (V : @VOps RNum) (T Rm : pt V -> pt V), IsoLaws V T Rm -> IsoLin V T Rm ->
+  forall (c : curve V), WF V c -> forall l,
+  at_length V (map_curve V T c) l = option_map (map_station V T Rm) (at_length V c l).
+Proof. exact at_length_iso. Qed.
+Print Assumptions C03_station_equivariant.
+
+(* closest points commute with the motion: same squared distance, same edge, same fraction, moved point *)
+Theorem C03_closest_equivariant : forall (V : @VOps RNum) (T Rm : pt V -> pt V), IsoLaws V T Rm -> IsoLin V T Rm ->
+  forall (q : pt V) (pts : list (pt V)),
+  poly_closest V (T q) (map T pts) = map_best V T (poly_closest V q pts).
+Proof. exact poly_closest_iso. Qed.
+Print Assumptions C03_closest_equivariant.
